@@ -1,3 +1,4 @@
+import Cpl.Gen.Tables
 import Cpl.Spec.Torus
 import Cpl.Model.Rules
 import Cpl.Properties.C02
@@ -416,5 +417,14 @@ example : (match evolve2dFixed [[[0,0,0,0,0],[0,4,4,0,0],[0,0,1,0,0],[0,0,0,0,0]
       (sandpileRule2 { rows := 5, cols := 5 }) 1 .vonNeumann .plain () with
     | .ok (gs, _) => gs.map total
     | .error _ => []) = [9, 6, 6] := by decide +kernel
+
+/-! ## The threshold comes from the source
+
+`Cpl.Gen.sandpileK` is regenerated from `Sandpile.__init__` (`self._K = …`) by `tools/translate.py` on every
+run and is the `K` the driver runs the model with; every theorem above assumes `cfg.K = 4`, the number of
+von Neumann neighbours (conservation needs exactly that). -/
+
+/-- The library's threshold is 4. -/
+theorem sandpileK_is_four : Cpl.Gen.sandpileK = 4 := by decide
 
 end Cpl.C14
